@@ -8,6 +8,7 @@ import (
 	_ "verif/internal/c17"
 	_ "verif/internal/c18"
 	_ "verif/internal/c19"
+	_ "verif/internal/c20"
 	"verif/internal/fw"
 )
 
